@@ -6,7 +6,7 @@ namespace SaoVerif
 
 deriving instance FromJson, ToJson for Order, RenewInfo, Shard, Metadata, ModelKey, ModelEntry, Node, Pledge, Pool,
   NodeParams, Worker, Fault, FaultIdx, ValidatorV, DelegationV, StakingView, DidEntry, DidState, State, Env,
-  ResetMsg, Proposal, StoreMsg, FaultIn
+  ResetMsg, Proposal, StoreMsg, FaultIn, AccId, PayAddrMsg, BindingMsg, DidUpdateMsg
 
 def getF {α : Type} [FromJson α] (j : Json) (k : String) : Except String α :=
   match j.getObjVal? k with
@@ -38,6 +38,9 @@ def parseOp (j : Json) : Except String Op := do
   | "perm" =>
     let p ← j.getObjVal? "p"
     pure (.perm (← getF j "creator") (← getF j "msgProvider") (← getF p "owner") (← getF p "dataId") (← getF p "readonlyDids") (← getF p "readwriteDids") (← getF j "sigValid"))
+  | "payaddr" => pure (.payaddr (← fromJson? j))
+  | "binding" => pure (.binding (← fromJson? j))
+  | "didupdate" => pure (.didupdate (← fromJson? j))
   | "delegate" => pure (.delegate (← getF j "creator") (← getF j "val") (← getF j "amount"))
   | "undelegate" => pure (.undelegate (← getF j "creator") (← getF j "val") (← getF j "amount"))
   | "restart" => pure .restart
